@@ -18,7 +18,12 @@ def cases(tier, rng):
     n = 600 if tier == 'thorough' else 140
     for k in range(n):
         try:
-            h = L.gen_history(rng, 1 if k % 5 else 2, nobj=(2, 6), kinds=('table',), objstm=0.0, lenref=0.0)
+            if k % 4 == 3:
+                # unfiltered cross-reference streams (theorem C03_bytes_xrefstm), no object streams
+                h = L.gen_history(rng, 1, nobj=(2, 6), kinds=('stream',), objstm=0.0, lenref=0.0, opts={'xfilt': 'none'})
+            else:
+                # classic tables; every fifth file has 2..3 revisions chained through /Prev (theorem C04_bytes_classic)
+                h = L.gen_history(rng, 1 if k % 5 else rng.choice([2, 3]), nobj=(2, 6), kinds=('table',), objstm=0.0, lenref=0.0)
             line, info = L.render_history(rng.getrandbits(48), h, garbage=(L.gen_garbage(rng) if k % 3 == 0 else b''))
         except Exception:
             continue
